@@ -47,6 +47,12 @@ Fixpoint all_before (a : plugin) (l : list plugin) : bool :=
 Fixpoint sorted_b (l : list plugin) : bool :=
   match l with [] => true | a :: t => all_before a t && sorted_b t end.
 
+Fixpoint longest_first_b (l : list plugin) : bool :=
+  match l with
+  | [] => true
+  | a :: t => forallb (fun b => Nat.leb (List.length (pprefix b)) (List.length (pprefix a))) t && longest_first_b t
+  end.
+
 Fixpoint count_z (x : Z) (l : list Z) : nat :=
   match l with [] => 0 | y :: t => (if Z.eqb x y then 1 else 0) + count_z x t end.
 Definition is_perm_of_range (n : nat) (l : list Z) : bool :=
@@ -66,10 +72,12 @@ Definition eval_sort (pse reale : sexp) : verdict :=
       let guard := distinct_prefixes_b ps && distinct_names_b ps in
       let model := map (idx ps) (sort_plugins ps) in
       let model_ok := sexp_eqb (of_zs model) (of_zs real) in
+      (* what the property needs of the order: a permutation, longest prefixes first (the direction
+         of the tie-break among equally long prefixes is the model's business, not the property's) *)
       let spec_ok :=
         is_perm_of_range (List.length ps) real &&
         match map_opt (nth_plugin ps) real with
-        | Some l => sorted_b l
+        | Some l => longest_first_b l
         | None => false
         end in
       mkv guard ("sort/" ++ size_tag (List.length ps) ++ (if nested_b ps then "/nested" else "/flat"))
